@@ -105,7 +105,7 @@ TYPES = [
     OT('s1', S1, strings=(1, 3), kind='struct'),
     OT('ss', SS, strings=(2,), kind='struct'),
     OT('su', SU, strings=(3,), kind='union'),
-    OT('sa', SA, strings=(1,), kind='union'),
+    OT('sa', SA, strings=(1,), kind='anonymous-member'),
     OT('u', U, strings=(3,), kind='union'),
     OT('bf', BF, makers=(v_small,), kind='bitfield'),
     OT('bf2', BF2, makers=(v_small,), kind='bitfield'),
